@@ -33,6 +33,21 @@ CHECKS = {
     design_ref="DESIGN.md section 6 (C02)", note=_MEM_NOTE,
     technique="Coq proof: reverse loop invariants ('no match at or after cur'), parametric as C01 + trace-level differential correspondence",
  ),
+ "C03": dict(
+    text="C03_memmem_find_partial / C03_finder_partial: memmem::find and Finder::find (any prefilter setting, EVERY ranker function, every CPU "
+         "detection outcome / architecture, every prefilter state) return Ok (find_spec x h) = the leftmost occurrence, for every haystack and every "
+         "needle that either does not reach Two-Way (<= 1 byte; <= 32 bytes on vector targets: unconditional, C03_memmem_find_short_needles) or "
+         "carries the decidable certificate tw_cert_fwd_of (Tier 1). Built from block theorems: Rabin-Karp, packed pair, prefilter soundness "
+         "(vector, portable, find_simple), Two-Way loops under the certificate, SWAR/vector memchr. The full statement is kept as C03_memmem_find_full.",
+    design_ref="DESIGN.md section 6 (C03)", note=_MEM_NOTE + " Tier 1: certificate evaluated for every needle of each run and swept in Coq over all ternary needles up to length 7.",
+    technique="Coq proof (partial: Two-Way under a decidable per-needle certificate): composition of block theorems through the modelled meta searcher + differential correspondence incl. strategy labels and step traces",
+ ),
+ "C04": dict(
+    text="C04_memmem_rfind_partial / C04_finder_rev_partial: memmem::rfind and FinderRev::rfind return Ok (rfind_spec x h) = the rightmost occurrence "
+         "(empty needle: haystack.len()), via reverse Rabin-Karp, memrchr and the reverse Two-Way loops under the certificate tw_cert_rev_of (Tier 1).",
+    design_ref="DESIGN.md section 6 (C04)", note=_MEM_NOTE + " Tier 1 as C03.",
+    technique="Coq proof (partial: Two-Way under a decidable per-needle certificate) + differential correspondence",
+ ),
  "C05": dict(
     text="Props/C05.v: for every modelled entry point and ALL inputs and placements, every load of the trace lies inside the haystack resp. needle "
          "slice and is aligned when marked aligned: byte search on every backend and through iterators (C05_memchr/C05_count/C05_iter), "
@@ -58,6 +73,14 @@ CHECKS = {
          "SWAR byte loop; wrappers. C07_iter_count: count() in any reachable iterator state returns the length of the remaining queue (matches not yet yielded).",
     design_ref="DESIGN.md section 6 (C07)", note=_MEM_NOTE,
     technique="Coq proof: counting invariant acc = count_p (firstn cur h) + trace-level differential correspondence",
+ ),
+ "C10": dict(
+    text="C10_config_and_ranker_irrelevant_partial: for any two prefilter settings, any two ranker FUNCTIONS (quantified over all N -> N) and any "
+         "start addresses the finder results coincide; C10_prefilter_state_irrelevant_partial: for any two prefilter states (effective, inert, "
+         "saturated) Searcher::find gives the same answer, equal to find_spec. Corollaries of C03 (which quantifies over configuration, ranker and "
+         "state), with C19 (every ranker yields a valid pair) and C11 (every valid pair gives a sound prefilter) inside.",
+    design_ref="DESIGN.md section 6 (C10)", note=_MEM_NOTE + " Tier 1 as C03.",
+    technique="Coq proof: corollary of the C03 theorem, universally quantified over ranker functions, configurations and prefilter states + configuration-grid differential run",
  ),
  "C11": dict(
     text="C11_vector_prefilter (all four ISAs incl. the AVX2 wrapper's SSE2 route) and C11_generic_prefilter (any width / mask representation "
